@@ -318,6 +318,11 @@ def cv_cases(rng, count):
     for c in range(count):
         w = rng.randint(1, 64)
         out.append(mk('cv-r%d' % c, [rng.getrandbits(w) for _ in range(rng.randint(1, 300))] + [1 << (w - 1)]))
+    # a random-access container that is not contiguous (std::deque): more than one node of 64 elements
+    for w in (1, 13, 37, 64):
+        c = mk('cv-deque-w%d' % w, [rng.getrandbits(w) for _ in range(300)] + [1 << (w - 1)])
+        c['ops'] = ['CT deque'] + c['ops']
+        out.append(c)
     for w in (1, 13, 33, 64):
         out.append(mk('cv-large-w%d' % w, [rng.getrandbits(w) for _ in range(70000)] + [1 << (w - 1)]))
     return out
